@@ -71,7 +71,7 @@ def gen_bounds(r: random.Random, scale: float, shape: str | None = None):
 
 def _scalar_spec(r: random.Random, lows, highs, family=None, has_perm=0):
     n = len(lows)
-    fam = family or r.choice(["sphere", "sphere", "rastrigin", "linear", "plateau", "abssum"])
+    fam = family or r.choice(["sphere", "sphere", "rastrigin", "linear", "plateau", "abssum", "hinge"])
     spec = {"family": fam}
     shift = []
     for lo, hi in zip(lows, highs):
@@ -94,6 +94,10 @@ def _scalar_spec(r: random.Random, lows, highs, family=None, has_perm=0):
     elif fam == "plateau":
         spec["q"] = _rnd(max(sum(hi - lo for lo, hi in zip(lows, highs)) / r.choice([3, 6, 12]), 1e-300))
     spec["const"] = r.choice([0.0, 0.0, 0.5, _rnd(0.5 * n), 3.0, -2.0])
+    if fam == "hinge":
+        spec["w"] = [_rnd(1.0 / max((hi - lo) ** 2, 1e-300)) for lo, hi in zip(lows, highs)]
+        spec["radius2"] = _rnd(max(n, 1) * r.choice([0.02, 0.1, 0.3]))
+        spec["const"] = 0.0
     if has_perm:
         spec["perm_w"] = [r.randrange(1, 10) for _ in range(has_perm)]
         spec["perm_scale"] = r.choice([1.0, 0.1])
@@ -456,7 +460,7 @@ def gen_config(r: random.Random, optimizer: str, validate, *, cycles=(1, 12), pe
 
 # ------------------------------------------------------------------------- faults, schedules
 STREAM_FAULTS = ["stream_bias_low", "stream_bias_high", "index_extreme", "index_repeat", "objective_scribbles"]
-POOL_FAULTS = ["objective_slow", "stalled_worker", "ac_order"]
+POOL_FAULTS = ["objective_slow", "stalled_worker", "ac_order", "objective_slow_good"]
 
 
 def gen_faults(r: random.Random, mode: str, workers: int, horizon: int = 3000, p_none: float = 0.45,
@@ -480,7 +484,7 @@ def gen_faults(r: random.Random, mode: str, workers: int, horizon: int = 3000, p
             out.append({"kind": k, "widx": r.randrange(0, max(1, workers)), "slow": r.randrange(3, 20)})
         elif k == "ac_order":
             out.append({"kind": k, "mode": r.choice(["reverse", "identity"])})
-        elif k == "objective_scribbles":
+        elif k in ("objective_scribbles", "objective_slow_good"):
             out.append({"kind": k})
     return out
 
@@ -507,6 +511,25 @@ def gen_scenario(seed: int, optimizer: str, family: str, mode: str, validate, *,
                                 pop_scales=opts.get("pop_scales", (1, 1, 1.5, 2, 3)),
                                 stop_opts=opts.get("stop_opts", True), any_pop_p=opts.get("any_pop_p", 0.3),
                                 extreme_p=opts.get("extreme_p", 0.05), extreme_index=opts.get("extreme_index"))
+    rs = random.Random(H(seed, "shrunken-problem"))
+    if rs.random() < opts.get("small_pop_p", 0.08):
+        # a shrunken problem: a handful of agents (and the optimizer's own counts scaled down with them), whatever the
+        # validators accept - degenerate states (one group left, all agents equal) are reached within a few cycles
+        base = base_configs()[optimizer]["params"]
+        q = dict(cfg)
+        q["population_size"] = rs.choice([2, 3, 4, 5, 6, 8])
+        f = q["population_size"] / max(1, base["population_size"])
+        for k, v in base.items():
+            if k in COMMON or isinstance(v, bool) or not isinstance(v, int):
+                continue
+            if v >= base["population_size"] and q.get(k) == v:
+                q[k] = max(q["population_size"], int(round(v * f)))
+        try:
+            validate(optimizer, q)
+            cfg = q
+            perturbed = list(perturbed) + ["population_size"]
+        except Exception:
+            pass
     workers = None
     if mode != "serial":
         workers = r.choice([1, 2, 3, 4, 4, 8, 16]) if r.random() < 0.8 else r.randrange(1, 17)
@@ -526,6 +549,15 @@ def gen_scenario(seed: int, optimizer: str, family: str, mode: str, validate, *,
                 # the earlier run used a pool too - the same kind and size as the observed run will ask for
                 h["mode"] = mode if mode != "serial" else rh.choice(["thread", "process"])
                 h["workers"] = workers if workers is not None else rh.choice([1, 2, 4])
+        rk = random.Random(H(seed, "history-results"))
+        for h in desc["history"]:
+            u = rk.random()
+            if u < 0.3:
+                h["keep_result"] = True          # the caller keeps the earlier result (checked again after the last run)
+            elif u < 0.45:
+                h["scribble_result"] = True      # the caller edits the earlier result in place before running again
+            if h.get("instance") == "other" and rk.random() < 0.5:
+                h["shared_config"] = True        # both optimizers are built on one configuration object
         if rh.random() < 0.35 and "multi" not in task["objective"]:
             # the objective reads a global of the user's script, and the script changed it between the runs
             task["objective"]["user_state"] = True
@@ -535,14 +567,21 @@ def gen_scenario(seed: int, optimizer: str, family: str, mode: str, validate, *,
                 if "multi" not in ob:
                     ob["user_state"] = True
                     ob["user_offset"] = rh.choice([3.0, -7.0, 1000.0, 0.25])
-        if rh.random() < 0.3 and any(h.get("instance", "same") == "same" for h in desc["history"]):
+        if rh.random() < opts.get("p_history_config", 0.3) and any(h.get("instance", "same") == "same" for h in desc["history"]):
             # the earlier runs used another configuration of the same instance (a tuner re-configures one instance per
             # grid point): other parameter values, a larger or a smaller population
             try:
                 hc, _ = gen_config(rh, optimizer, validate, cycles=(1, 4), perturb_p=0.7,
                                    pop_scales=(1, 1.5, 2, 3), stop_opts=False, any_pop_p=0.3)
-                if rh.random() < 0.4:
+                # the earlier configuration's population: equal to, larger than or smaller than the observed one
+                rel = rh.choice(["equal", "larger", "larger", "smaller"])
+                bp_ = base_configs()[optimizer]["params"]["population_size"]
+                if rel == "equal":
                     hc["population_size"] = cfg["population_size"]
+                elif rel == "larger":
+                    hc["population_size"] = cfg["population_size"] + rh.randrange(1, cfg["population_size"] + 1)
+                elif cfg["population_size"] > bp_:
+                    hc["population_size"] = rh.randrange(bp_, cfg["population_size"])
                 validate(optimizer, hc)
                 desc["history_config"] = hc
             except Exception:
@@ -568,6 +607,29 @@ def gen_scenario(seed: int, optimizer: str, family: str, mode: str, validate, *,
             desc["via"] = "multitask"
             desc["via_trials"] = rv.choice([1, 2, 2, 3])
             desc["via_pick"] = rv.randrange(3)
+    rq = random.Random(H(seed, "seeded-task-and-party-faults"))
+    if task.get("seed") is None and rq.random() < 0.25:
+        task["seed"] = rq.choice([0, 1, 7, 42, 2 ** 31 - 1])     # the documented way to make a run repeatable
+    if rq.random() < opts.get("p_objective_raise", 0.04):
+        # foreign-party fault: one evaluation fails, with whatever exception type user code may raise
+        from sim.faults import EXC_TYPES
+        desc["faults"] = list(desc["faults"]) + [{"kind": "objective_raise", "at": rq.randrange(1, rq.choice([30, 120, 600])),
+                                                  "exc": rq.choice(EXC_TYPES + ["RuntimeError"] + ["StopIteration"] * 4 + ["TypeError", "AttributeError", "PicklingError"])}]
+    if mode == "process" and rq.random() < opts.get("p_worker_crash", 0.04):
+        # a worker process dies abruptly (OOM kill, segfault): every pending future breaks
+        desc["faults"] = list(desc["faults"]) + [{"kind": "worker_crash", "at_task": rq.randrange(1, 40)}]
+    rse = random.Random(H(seed, "shared-early-stopping"))
+    if isinstance(cfg.get("early_stopping"), dict) and cfg["early_stopping"].get("patience") and rse.random() < 0.4:
+        # the caller defined ONE EarlyStopping object and also used it for another configuration (a shorter / longer run)
+        other = dict(cfg)
+        other["max_cycles"] = rse.choice([1, 2, 3, cfg["max_cycles"] + 5, 50])
+        try:
+            validate(optimizer, other)
+            desc["shared_early_stopping"] = {k: v for k, v in other.items() if k != "early_stopping"}
+        except Exception:
+            pass
+    if random.Random(H(seed, "np-return")).random() < 0.15:
+        task["objective"]["np_return"] = True    # a NumPy-based objective: returns numpy.float64, not a Python float
     # diagnostics switched on (observer effect): the constructor's debug flag only prints
     desc["debug"] = r.random() < opts.get("p_debug", 0.08)
     return desc
